@@ -72,6 +72,9 @@ def run_property(prop, tier, seed, opts):
         return 3
 
     # ---- 1. L1: generate + discharge ---------------------------------------
+    from . import discharge as _DD
+    _DD.PREFERRED.clear()
+    _DD.PREFERRED.update(baseline.get("solver", {}))
     timeouts = (20, 20, 40) if tier == "quick" else (40, 60, 120)
     results, tm = V.verify_units(l1, D.REPO, outdir, timeouts=timeouts, group=getattr(opts, "group", None))
     n_obl = n_dis = 0
@@ -309,6 +312,14 @@ def run_property(prop, tier, seed, opts):
             if all(s == "unsat" for s in sts):
                 proved.add(g)
         base["proved"] = sorted(proved)
+        solv = dict(base.get("solver", {}))
+        for r in results:
+            for o in r.get("obls", []):
+                if o.status == "unsat" and o.solver and o.solver != "z3-5.1":
+                    solv[o.group] = o.solver
+                elif o.status == "unsat" and o.group in solv and o.solver == "z3-5.1" and o.time < 5:
+                    solv.pop(o.group, None)
+        base["solver"] = solv
         os.makedirs(os.path.join(VERIF, "baseline"), exist_ok=True)
         json.dump(base, open(os.path.join(VERIF, "baseline", "obligations.json"), "w"), indent=0)
 
